@@ -8,12 +8,15 @@ code: do_loop_unroll (`!$loki loop-unroll [depth(n)]`), do_loop_fusion, do_loop_
           steps, zero-trip loops, nesting, depth(n)                      -> must ALWAYS preserve behaviour
       (b) fusion / fission / interchange / blocking: pragma-annotated nests that are legal BY CONSTRUCTION
           (independent iterations, see lib_fm_loops.NestGen); range-mismatched fusion included because the
-          transformation documents and tests its guard insertion.
+          transformation documents and tests its guard insertion; `fusion-permute`: collapse(2|3) groups whose
+          nests name their loop variables differently / in permuted roles over the same iteration space
+          (guaranteed minimum per run, see ctx.cover['fusion_permute']).
 """
 import os
 
 from .. import lib_fm as F
 from .. import lib_fm_loops as L
+from ..core import MachineryError
 
 # family -> (quick, thorough) number of programs
 PLAN = {
@@ -21,13 +24,14 @@ PLAN = {
     'unroll': (20, 225), 'unroll-select': (5, 40), 'unroll-negpow': (4, 30), 'unroll-exitcycle': (4, 30),
     'unroll-loopvar': (4, 30), 'unroll-print': (4, 30),
     # (b) legal by construction
-    'fusion': (9, 90), 'fusion-mismatch': (9, 90), 'fusion-collapse': (5, 50),
+    'fusion': (9, 90), 'fusion-mismatch': (9, 90), 'fusion-collapse': (5, 50), 'fusion-permute': (9, 80),
     'fission': (9, 90), 'fission-autopromote': (5, 45), 'fission-promote': (7, 60), 'fission-promote-lb': (4, 30),
     'interchange': (9, 90), 'interchange-project': (6, 50), 'split': (8, 80), 'split-steptrunc': (3, 20), 'block': (7, 60),
 }
 
 
 def run(ctx):
+    only_fams = [f for f in os.environ.get('VERIF_FAMILIES', '').split(',') if f]
     if ctx.replay:
         c = ctx.replay['case']
         cases = [(c['prog'], c['inputs'])]
@@ -43,6 +47,20 @@ def run(ctx):
         results, fails, legal = F.behaviour_check(ctx, 'loops', cases, L.transform_c31)
         L.report_by_family(ctx, cases, results, fails, L.transform_c31)
     L.family_cover(ctx, cases, results, legal)
+    # vacuity guard: fused collapse(n) nests with permuted / re-used loop-variable names must really be judged
+    perm = [r['idx'] for r in results if L.family_of(cases[r['idx']][0]) == 'fusion-permute'
+            and r['idx'] in legal and r.get('new', ('none',))[0] != 'not-applicable']
+    metas = [cases[i][0]['meta'] for i in perm]
+    ctx.cover['fusion_permute'] = {
+        'judged_programs': len(perm),
+        'with_permuted_nest': sum(1 for m in metas if m.get('permuted_nests', 0) > 0),
+        'with_name_reused_at_other_level': sum(1 for m in metas if m.get('shifted_nests', 0) > 0),
+        'collapse2': sum(1 for m in metas if m.get('collapse') == 2),
+        'collapse3': sum(1 for m in metas if m.get('collapse') == 3)}
+    want = 0 if (ctx.replay or (only_fams and 'fusion-permute' not in only_fams)) else (6 if ctx.quick else 40)
+    if ctx.cover['fusion_permute']['with_permuted_nest'] < want:
+        raise MachineryError(f"vacuous: only {ctx.cover['fusion_permute']['with_permuted_nest']} fusion groups with permuted "
+                             f"loop-variable names were judged (minimum {want})")
     ctx.cover['programs_with_legal_inputs'] = len(legal)
     for fam in ('unroll', 'fusion-mismatch', 'fission-promote', 'interchange'):
         r = next((r for r in results if (cases[r['idx']][0].get('meta') or {}).get('family') == fam and 'newtext' in r), None)
